@@ -73,3 +73,65 @@ def tracegen_stage(tier_, key):
                             "claimed_opcodes": [e["op"] for e in r["ev"] if e["op"] >= 0][:40]})
         return {"findings": out, "coverage": cov, "samples": samples}
     return cached(key, "tracegen_" + tier_, compute)
+
+# ---------------------------------------------------------------------------
+# model checking of the design (depends on the spec only, not on /repo)
+
+MC_RUNS = {
+    # name: (module, cfg, tiers, workers, expect)
+    "MC_RunQuick":    ("MC_Run.tla", "MC_RunQuick.cfg", ("quick",), 12),
+    "MC_RunThorough": ("MC_Run.tla", "MC_RunThorough.cfg", ("thorough",), 14),
+    "MC_RunDeep":     ("MC_Run.tla", "MC_RunDeep.cfg", ("thorough",), 14),
+    "MC_Life":        ("MC_Run.tla", "MC_Life.cfg", ("quick", "thorough"), 8),
+    "MC_Live":        ("MC_Run.tla", "MC_Live.cfg", ("thorough",), 12),
+    "MC_Step":        ("MC_StepDefs.tla", "MC_Step.cfg", ("quick",), 12),
+    "MC_StepDeep":    ("MC_StepDefs.tla", "MC_StepDeep.cfg", ("thorough",), 14),
+    "MC_StepMemo":    ("MC_StepDefs.tla", "MC_StepMemo.cfg", ("quick", "thorough"), 12),
+}
+
+def spec_key(extra=""):
+    import hashlib
+    h = hashlib.sha256()
+    for f in sorted(os.listdir(SPEC)):
+        if f.endswith((".tla", ".cfg")):
+            h.update(f.encode()); h.update(open(os.path.join(SPEC, f), "rb").read())
+    h.update(extra.encode())
+    return "spec-" + h.hexdigest()[:20]
+
+def parse_coverage(out):
+    """per-action counts from `-coverage 1` output: {action: (distinct, total)}"""
+    import re
+    cov = {}
+    for m in re.finditer(r"<(\w+) line \d+, col \d+ to line \d+, col \d+ of module (\w+)>: (\d+):(\d+)", out):
+        cov[m.group(1)] = (int(m.group(3)), int(m.group(4)))
+    return cov
+
+def mc_run(name):
+    module, cfg, tiers, workers = MC_RUNS[name]
+    def compute(d):
+        sd = tlc.stage_dir("mc_" + name)
+        rc, out, wall = tlc.run_tlc(sd, module, cfg, workers=workers, xmx="12g", timeout=5400, extra=("-coverage", "1"))
+        st = tlc.stats(out)
+        ok = "Model checking completed. No error has been found." in out
+        viol = [l for l in out.split("\n") if l.startswith("Error: Invariant") or "Temporal properties were violated" in l]
+        if st is None or (not ok and not viol):
+            raise ToolError("TLC failed on %s:\n%s" % (name, out[-3000:]))
+        cov = parse_coverage(out)
+        return {"name": name, "ok": ok, "violations": viol, "generated": st["generated"], "distinct": st["distinct"],
+                "wall_s": round(wall, 1), "coverage_by_action": {k: v[1] for k, v in cov.items()},
+                "tail": out[-1500:] if not ok else ""}
+    return cached(spec_key(name), "mc_" + name, compute)
+
+def mc_stage(tier_, names):
+    res = []
+    for n in names:
+        if tier_ in MC_RUNS[n][2]:
+            r = mc_run(n)
+            if not r["ok"]:
+                raise ToolError("model checking of the committed specification failed (%s): %s\n%s" % (n, r["violations"], r.get("tail", "")))
+            # vacuity guard: every action of the model must have fired
+            dead = [a for a, c in r["coverage_by_action"].items() if c == 0 and a not in ("Reset", "Rewrite")]
+            if dead:
+                raise ToolError("vacuous model checking run %s: actions never taken: %s" % (n, dead))
+            res.append(r)
+    return res
